@@ -73,7 +73,10 @@ let print_res = function
   | RHeap (a, c) -> Printf.sprintf "H %d %s" (i a) (bytes_str c)
   | RNull -> "U"
   | RSlice (a, len) -> Printf.sprintf "S %d %d" (i a) (i len)
-  | RStatic (b, c) -> Printf.sprintf "B %d %s" (buf_no b) (bytes_str c)
+  | RStatic (b, c) ->
+      (* canonical view: the bytes up to the first NUL inside the buffer, or the whole buffer *)
+      if Text.has_nul c then Printf.sprintf "B %d 1 %s" (buf_no b) (bytes_str (Text.c_str c))
+      else Printf.sprintf "B %d 0 %s" (buf_no b) (bytes_str c)
   | RGlobalEmpty -> "G"
   | RHasNext (p, b) -> Printf.sprintf "X %d %d" (i p) (i b)
   | RUpGet (p, b) ->
